@@ -35,7 +35,8 @@ FSet3 == IF Big THEN FSet ELSE {EnvInherit, EnvName(N)}
 
 SchemaE(s1, f1, s2, f2, f3) ==
     [senv |-> s1] @@ SchemaF(<<
-        <<"a", With(IntF, [hasmin |-> TRUE, min |-> 0, hasmax |-> TRUE, max |-> 99, default |-> IntV(5), env |-> f1])>>,
+        \* (a friendly name: it plays no part in the variable's name)
+        <<"a", With(IntF, [hasmin |-> TRUE, min |-> 0, hasmax |-> TRUE, max |-> 99, default |-> IntV(5), env |-> f1, fname |-> "the a"])>>,
         <<"sub", [senv |-> s2] @@ SchemaF(<<
             <<"b", With(StringF, [default |-> s(<<"d">>), maxlen |-> 4, env |-> f2])>>,
             <<"deep", SchemaF(<< <<"c", With(BoolF, [default |-> BoolV(FALSE), env |-> f3])>> >>)>> >>)>> >>)
